@@ -268,7 +268,8 @@ def report(repo, table):
         if f.endswith('.v'):
             txt = re.sub(r'\(\*.*?\*\)', '', open(os.path.join(root, 'coq', 'Props', f)).read(), flags=re.S)
             thm_names.update(re.findall(r'^\s*(?:Theorem|Example)\s+([A-Za-z0-9_\']+)', txt, re.M))
-    kinds = {'c15_theorem': 0, 'c15_theorem_partial': 0, 'owner_theorem': 0, 'correspondence_and_judge_only': 0}
+    kinds = {'c15_theorem': 0, 'c15_theorem_partial': 0, 'owner_theorem': 0, 'owner_theorem_partial': 0,
+             'correspondence_and_judge_only': 0}
     missing_thm = set()
     for r in rows:
         t = r['theorem']
@@ -280,6 +281,10 @@ def report(repo, table):
             kinds['owner_theorem'] += 1
             if t[7:].strip() not in thm_names:
                 missing_thm.add(t[7:].strip())
+        elif t.startswith('owner-partial: '):
+            kinds['owner_theorem_partial'] += 1
+            if t[15:].strip() not in thm_names:
+                missing_thm.add(t[15:].strip())
         else:
             kinds['correspondence_and_judge_only'] += 1
     stats['no_panic_evidence_per_entry'] = kinds
